@@ -104,15 +104,17 @@ def _collapse_preconditions(
 
     # The function might have been collapsed with (some of) these bases already: the class is created anew by
     # a class decorator (*e.g.*, ``dataclasses.dataclass(slots=True)``) or the function is shared among sibling classes.
-    # The groups which the function already includes must not be merged once more.
-    included = {id(contract) for group in preconditions for contract in group}
+    # The groups which the function already includes must not be merged once more. Only a group consisting of
+    # the very same contracts counts: a group of the function which merely contains all the contracts of a base's group
+    # (*e.g.*, one decorator object applied to both functions) is stricter and does not stand in for it.
+    included = [[id(contract) for contract in group] for group in preconditions]
 
     # The groups of the bases are copied so that a precondition added to this function later on
     # (*e.g.*, ``Sub.func = icontract.require(...)(Sub.func)``) does not end up in the contracts of a base class.
     return [
         list(group)
         for group in base_preconditions
-        if not all(id(contract) in included for contract in group)
+        if [id(contract) for contract in group] not in included
     ] + preconditions
 
 
